@@ -276,7 +276,11 @@ class TimeStamp(TdmsType):
             remainder = np.timedelta64(1, 's') + remainder
             seconds = seconds - 1
         microseconds = int(remainder / np.timedelta64(1, 'us'))
-        second_fractions = int(microseconds * self._fractions_per_microsecond)
+        # Round up, with a margin (< 1e-15 s) that covers the double precision arithmetic used
+        # when converting back, so that reading truncates to the same number of microseconds.
+        second_fractions = -((-microseconds * 2 ** 64) // 10 ** 6)
+        if microseconds != 0:
+            second_fractions += 2 ** 14
         self.bytes = _struct_pack('<Qq', second_fractions, seconds)
 
     @classmethod
